@@ -30,6 +30,16 @@ use crate::{
 #[allow(clippy::boxed_local)] // We always pass around boxed values during execution
 pub fn validate_jump_destination(counter: &RuntimeBoxedVal, vm: &mut VM) -> execution::Result<u32> {
     let instruction_pointer = vm.instruction_pointer()?;
+
+    #[cfg(sle_verif)]
+    crate::verif::emit_with(|| crate::verif::Event::JumpOperand {
+        ip:   instruction_pointer,
+        word: match counter.constant_fold().data() {
+            RSVD::KnownData { value, .. } => Some(value.bytes_be()),
+            _ => None,
+        },
+    });
+
     let jump_target = match counter.constant_fold().data() {
         RSVD::KnownData { value, .. } => value.value_le().as_u32(),
         _ => {
